@@ -637,7 +637,7 @@ func (t *Tree) Compile(file string, args []string, out io.Writer) (err error) {
 			t.StructName = n.String()
 			t.StructVariables = n.Front().String()
 		case TypeRule:
-			if _, ok := t.Rules[n.String()]; !ok {
+			if first, ok := t.Rules[n.String()]; !ok {
 				expression := n.Front()
 				cp := expression.Copy()
 				expression.Init()
@@ -647,6 +647,9 @@ func (t *Tree) Compile(file string, args []string, out io.Writer) (err error) {
 
 				t.Rules[n.String()] = n
 				t.RuleNames = append(t.RuleNames, n)
+			} else if first != n {
+				// a second definition would shift the rule table against the rule constants
+				return fmt.Errorf("rule '%v' defined more than once", n)
 			}
 		}
 	}
